@@ -1,3 +1,4 @@
 import PncModel.Wire
 import PncModel.Arl
 import PncModel.Interp
+import PncModel.Val2idx
